@@ -625,6 +625,14 @@ def build_models(interp):
                     if v > vals[best]:
                         best = i
                 return best
+            if len(vals) <= 8:
+                # symbolic elements: numpy's rule (first maximum) decided comparison by comparison; each comparison that the path condition
+                # does not settle forks the path, so the index is concrete on every path
+                best = 0
+                for i in range(1, len(vals)):
+                    if interp.truth(S(sp.Gt(num(vals[i]), num(vals[best])))):
+                        best = i
+                return best
         raise Unsupported("argmax over symbolic values")
 
     reg(np.argmax, m_argmax)
